@@ -1325,6 +1325,18 @@ func (r *fhRun) run(only map[int]bool) {
 		if s.Mode == "run" && o.skipped && len(t.Sources) > 0 && !good {
 			r.viol = append(r.viol, fhViol{"c04", k, ti, facts("skip-not-good")})
 		}
+		// … and the same for the QUERIES (the verdict of the check does not depend on the mode:
+		// `C04_partial_queries`): --status exiting 0, --dry reporting "up to date", `up_to_date: true`
+		if len(t.Sources) > 0 && !good {
+			switch {
+			case s.Mode == "status" && o.exit == "ok":
+				r.viol = append(r.viol, fhViol{"c04", k, ti, facts("status-not-good")})
+			case s.Mode == "dry" && o.skipped:
+				r.viol = append(r.viol, fhViol{"c04", k, ti, facts("dry-skip-not-good")})
+			case s.Mode == "listjson" && ti < len(o.bits) && o.bits[ti] == "1":
+				r.viol = append(r.viol, fhViol{"c04", k, ti, facts("list-not-good")})
+			}
+		}
 		// C05
 		if s.Mode == "force" && len(o.ran) == 0 && o.exit == "ok" {
 			r.viol = append(r.viol, fhViol{"c05", k, ti, facts("force-did-not-run")})
